@@ -163,7 +163,8 @@ def parseRcptOpts (s : String) : RcptOpts :=
   let m := kvs s
   let n := look m "notify"
   { notify := if n == "" then [] else (n.splitOn "+").map bytesOfHex, orcptType := bytesOfHex (look m "orcpttype"),
-    orcpt := bytesOfHex (look m "orcpt"), rrvs := if look m "rrvs" == "nil" then none else some (intOf (look m "rrvs")) }
+    orcpt := bytesOfHex (look m "orcpt"),
+    rrvs := if look m "rrvs" == "nil" then none else some (intOf (((look m "rrvs").splitOn "@").headD "")) }
 
 def parseEv (s : String) : Option Ev :=
   match s.splitOn ":" with
@@ -264,7 +265,14 @@ def monitor (pid : String) (c0 a : List String) : String :=
               ["C06 a MAIL declaring a SIZE above the limit reached the backend"] else []) ++
            (if cfg.maxMsg > 0 && drecs.any (fun d => d.octets.length > cfg.maxMsg && d.rdEnd == .eof) then
               ["C06 an over-size message was reported complete"] else [])
-       | "C07" => Spec.Mon.check7 cfg.lmtp drecs evs
+       | "C07" => Spec.Mon.check7 cfg.lmtp drecs evs ++
+           (match tag.splitOn ":" with
+            | ["TAG=incomplete", k] =>
+              -- the connection was lost inside message k: whatever the backend got of it, it is not a complete message
+              (match drecs[natOf k]? with
+               | some d => if d.rdEnd == .eof then ["C07 an incomplete message was presented to the backend as complete (EOF)"] else []
+               | none => [])
+            | _ => [])
        | _ => Spec.Mon.check8 evs ++ Spec.Mon.check3 cfg evs)
     if bad.isEmpty then "ok" else "bad: " ++ String.intercalate "; " bad
   | _ => "bad: unparsable case"
